@@ -256,6 +256,7 @@ func c22History() {
 		case 0:
 			t := c22Tokens[sym.Choice("token", 2)]
 			user, _, err := ValidateJWT(1, t.str)
+			sym.Observe("accepted", err == nil)
 			if err != nil {
 				sym.Reach("refused")
 				continue
